@@ -267,7 +267,14 @@ func (it *item) build(cfg *types.Chain33Config, blocked map[who]bool, sign bool)
 	it.pool, it.expanded = g.Tx(), g.Txs
 }
 
-func sameTx(a, b *types.Transaction) bool { return bytes.Equal(types.Encode(a), types.Encode(b)) }
+// sameTx compares every field of two transactions (cheaper than encoding 100 KB payloads).
+func sameTx(a, b *types.Transaction) bool {
+	sa, sb := a.GetSignature(), b.GetSignature()
+	return bytes.Equal(a.Execer, b.Execer) && bytes.Equal(a.Payload, b.Payload) && a.Fee == b.Fee && a.Expire == b.Expire &&
+		a.Nonce == b.Nonce && a.To == b.To && a.GroupCount == b.GroupCount && bytes.Equal(a.Header, b.Header) &&
+		bytes.Equal(a.Next, b.Next) && a.ChainID == b.ChainID && sa.GetTy() == sb.GetTy() &&
+		bytes.Equal(sa.GetPubkey(), sb.GetPubkey()) && bytes.Equal(sa.GetSignature(), sb.GetSignature())
+}
 
 // ---------------------------------------------------------------------------------------------------------
 // generators
@@ -299,7 +306,7 @@ func genTxSpec(t *rapid.T, pay int, blocked []who, nonce *int64) txSpec {
 		w := genWho(t, "to")
 		s.To = &w
 	}
-	if len(blocked) > 0 && kind == 9 { // aim at a blocked account
+	if len(blocked) > 0 && kind >= 8 { // aim at a blocked account
 		b := rapid.SampledFrom(blocked).Draw(t, "hit")
 		if rapid.Bool().Draw(t, "hitFrom") {
 			s.From = b
@@ -329,7 +336,7 @@ func genLimits(t *rapid.T, regime string) limits {
 		vals := []int64{1500, 1600, 10000}
 		l.A, l.B, l.C = rapid.SampledFrom(vals).Draw(t, "A"), rapid.SampledFrom(vals).Draw(t, "B"), rapid.SampledFrom(vals).Draw(t, "C")
 	case "dense":
-		vals := []int64{40000, 60000, 100000}
+		vals := []int64{34000, 40000, 60000, 100000}
 		l.A, l.B, l.C = rapid.SampledFrom(vals).Draw(t, "A"), rapid.SampledFrom(vals).Draw(t, "B"), rapid.SampledFrom(vals).Draw(t, "C")
 	default:
 		l.A, l.B, l.C = rapid.Int64Range(1, 40).Draw(t, "A"), rapid.Int64Range(1, 40).Draw(t, "B"), rapid.Int64Range(1, 40).Draw(t, "C")
@@ -340,8 +347,12 @@ func genLimits(t *rapid.T, regime string) limits {
 	return l
 }
 
-func genHeight(t *rapid.T, l limits) int64 {
-	base := rapid.SampledFrom([]int64{l.F1, l.F2, l.HB}).Draw(t, "hBase")
+func genHeight(t *rapid.T, l limits, blocked bool) int64 {
+	bases := []int64{l.F1, l.F2, l.HB}
+	if blocked { // the blacklist fork matters: look at it more often
+		bases = []int64{l.F1, l.F2, l.HB, l.HB, l.HB + 1}
+	}
+	base := rapid.SampledFrom(bases).Draw(t, "hBase")
 	h := base + rapid.Int64Range(-1, 1).Draw(t, "hOff")
 	if h < 1 {
 		h = 1
@@ -350,7 +361,7 @@ func genHeight(t *rapid.T, l limits) int64 {
 }
 
 func genBlocked(t *rapid.T) []who {
-	if rapid.IntRange(0, 9).Draw(t, "hasBlocked") < 5 {
+	if rapid.IntRange(0, 9).Draw(t, "hasBlocked") < 3 {
 		return nil
 	}
 	n := rapid.IntRange(1, 2).Draw(t, "nBlocked")
@@ -378,16 +389,27 @@ func payloadForSize(cfg *types.Chain33Config, from who, nonce int64, want int) i
 }
 
 func genBlockCase(t *rapid.T) *blockCase {
-	regimes := []string{"count", "count", "count", "size", "size", "mixed", "mixed", "dense"}
+	regimes := []string{"count", "mixed", "size", "count", "mixed", "dense", "count", "mixed", "size", "count", "mixed", "count"}
 	c := &blockCase{Regime: rapid.SampledFrom(regimes).Draw(t, "regime")}
 	c.L = genLimits(t, c.Regime)
-	c.Height = genHeight(t, c.L)
-	c.Pre = rapid.IntRange(0, 2).Draw(t, "pre")
+	switch c.Regime {
+	case "count", "mixed":
+		c.Blocked = genBlocked(t)
+	case "size":
+		if rapid.IntRange(0, 3).Draw(t, "sizeBlocked") == 0 {
+			c.Blocked = genBlocked(t)
+		}
+	}
+	c.Height = genHeight(t, c.L, len(c.Blocked) > 0)
 	limit := c.L.maxAt(c.Height)
+	// a caller's block may already hold a miner transaction or two, never more than the limit
+	c.Pre = rapid.IntRange(0, 2).Draw(t, "pre")
+	if int64(c.Pre) > limit {
+		c.Pre = int(limit)
+	}
 	nonce := int64(1000)
 	switch c.Regime {
 	case "count":
-		c.Blocked = genBlocked(t)
 		target := int(limit) - c.Pre + rapid.IntRange(-3, 6).Draw(t, "over")
 		for n := 0; n < target; {
 			it := genItem(t, 0, 300, 6, c.Blocked, &nonce)
@@ -395,15 +417,11 @@ func genBlockCase(t *rapid.T) *blockCase {
 			n += len(it.Txs)
 		}
 	case "mixed":
-		c.Blocked = genBlocked(t)
 		n := rapid.IntRange(0, 30).Draw(t, "nItems")
 		for i := 0; i < n; i++ {
 			c.Items = append(c.Items, genItem(t, 0, 2000, 20, c.Blocked, &nonce))
 		}
 	case "size":
-		if rapid.IntRange(0, 3).Draw(t, "sizeBlocked") == 0 {
-			c.Blocked = genBlocked(t)
-		}
 		// big items until about 150 KB below the accumulation bound (singles only for the last 2 MB so that the
 		// list usually ends below the bound); the tail is tuned in runBlockCase
 		room := types.MaxBlockSize - 100000 - 150000
@@ -441,6 +459,7 @@ type outcome struct {
 	stopCount bool // the first untaken, unblocked item would have exceeded the count limit
 	stopSize  bool // ... the size bound
 	straddle  bool // that item is a group
+	overBy    int  // bytes by which that item would have exceeded the size bound
 }
 
 func runBlockCase(t lib.TB, c *blockCase) {
@@ -619,6 +638,7 @@ func runBlockCase(t lib.TB, c *blockCase) {
 			out.stopCount = true
 		} else if sum+it.size > types.MaxBlockSize-100000 {
 			out.stopSize = true
+			out.overBy = sum + it.size - (types.MaxBlockSize - 100000)
 		}
 		out.straddle = len(it.expanded) > 1
 		break
@@ -650,7 +670,10 @@ func runBlockCase(t lib.TB, c *blockCase) {
 		lib.Class("count_exactly_at_limit")
 	}
 	if d := types.MaxBlockSize - 100000 - sum; d >= 0 && d <= 3 {
-		lib.Class("size_within_3_bytes_of_bound")
+		lib.Class("size_packed_within_3_bytes_of_bound")
+	}
+	if out.overBy >= 1 && out.overBy <= 3 {
+		lib.Class("size_item_rejected_for_1_to_3_bytes")
 	}
 	// non-trivial (DESIGN C30): the result is within one transaction of either limit and a group straddles it
 	if (out.stopCount && nearCount || out.stopSize && nearSize) && out.straddle {
